@@ -73,7 +73,7 @@ impl GenCfg {
             spellings: true,
             allow_packed_embed: false,
             sound_derives: true,
-            hazard_names: false,
+            hazard_names: true,
             vft_num: 1,
             base_num: 1,
         }
@@ -164,8 +164,8 @@ impl<'t, 'd> Gen<'t, 'd> {
         let mut v = vec![];
         for i in 0..n {
             self.doc_counter += 1;
-            // an empty line only in the middle (a trailing empty doc line is lost by `lines()`: candidate finding, excluded)
-            if i > 0 && i + 1 < n && self.t.chance(1, 4) {
+            // empty lines anywhere, also last (regression for fixed finding F26)
+            if self.t.chance(1, 5) {
                 v.push(String::new());
             } else {
                 v.push(format!(" pv-doc-{}", self.doc_counter));
